@@ -1,15 +1,16 @@
 """C07 - see properties.jsonl; DESIGN.md section 5."""
 from ._generic import run_property
 
-EXPLANATION = 'Bounded stand-in: append histories (1..3 appends) with read-back == concatenation, byte-identity of the pre-existing single-file prefix and of pre-existing data files.'
+EXPLANATION = 'Mixed. P: writer.write_simple.write_to_file is executed symbolically from its real source on the byte-file model (make_row_group by contract: writes only at/after the current position): an append never changes a byte before the old footer, seeks exactly to the old footer, and leaves F_new ++ le32(len) ++ PAR1 at the end. B (labelled bounded): append histories (1..3 appends) with read-back == concatenation, byte-identity of the pre-existing single-file prefix and of pre-existing data files.'
 
 
 def p_parts():
-    return []
+    from ._append import p_append
+    return [p_append]
 
 
 def run(ctx):
-    return run_property(ctx, 'exploration', EXPLANATION, p_parts=p_parts(), b_modules=['c07_append_history'],
+    return run_property(ctx, 'other', EXPLANATION, p_parts=p_parts(), b_modules=['c07_append_history'],
                         assumptions=["pandas / numpy / cramjam behaviour inside every opaque value",
                                      "the oracle (plain pandas / the spec library under /verif/spec) is a faithful reading of the property"],
                         trusted=["bounded layer: enumerated inputs only; nothing outside the stated bound is covered"])
